@@ -85,6 +85,8 @@ func main() {
 			fmt.Fprintln(os.Stderr, err)
 			os.Exit(3)
 		}
+	case "run":
+		props.DebugRun(os.Args[2], len(os.Args) > 3 && os.Args[3] == "repl")
 	case "replay":
 		b, err := os.ReadFile(os.Args[2])
 		if err != nil {
